@@ -55,6 +55,9 @@ def shapley_trace(tid, n, v):
         t["sh_all"] = [sh_iv(x, n, scale, M) for x in allv]
         t["sh_one"] = [sh_iv(x, n, scale, M) for x in onev]
         t["entry_bits"] = int(all(float(a) == float(b) for a, b in zip(allv, onev)))
+        again = list(compute_shapley_value(g))                     # a second evaluation on the same object
+        t["entry_bits"] &= int(all(float(a) == float(b) for a, b in zip(allv, again)))
+        t["lo_after"] = D.exact_arr(g.get_values(), scale)          # the game as it is after the computations
     except D.DriverError:
         raise
     except Exception as ex:  # noqa: BLE001
